@@ -222,6 +222,31 @@ fn c03_report<F: Fam>(ctx: &Ctx, b: &[u8], entry: &str, what: String) {
     ctx.violation(format!("C03:{}:{entry}:{}", F::NAME, first_byte_class(b)), format!("{entry} on {}: {what}", hex_short(b)), json!({"kind":"bytes","family":F::NAME,"bytes":hex(b),"entry":entry}));
 }
 
+/// Error values are data handed to the caller too: every text they carry must be well-formed UTF-8
+/// (a `String` that is not is undefined behaviour waiting for its first use) and they must format
+/// without panicking.
+pub fn err_walk<F: Fam>(e: &F::Error) -> Result<(), String> {
+    use mqtt_proto::Error as E;
+    if let Some(c) = F::as_common(e) {
+        let texts: Vec<(&str, &String)> = match c {
+            E::InvalidProtocol(s, _) => vec![("InvalidProtocol", s)],
+            E::InvalidTopicName(s) => vec![("InvalidTopicName", s)],
+            E::InvalidTopicFilter(s) => vec![("InvalidTopicFilter", s)],
+            E::IoError(_, s) => vec![("IoError", s)],
+            _ => vec![],
+        };
+        for (name, s) in texts {
+            if std::str::from_utf8(s.as_bytes()).is_err() {
+                return Err(format!("error value {name} carries a String that is not UTF-8: {}", hex_short(s.as_bytes())));
+            }
+        }
+    }
+    match guard(|| format!("{e:?}").len()) {
+        Ok(_) => Ok(()),
+        Err(m) => Err(format!("formatting the error value panics: {m}")),
+    }
+}
+
 pub fn c03_light<F: Fam>(ctx: &Ctx, sw: &Sweep, b: &[u8]) {
     let o1 = front::blocking::<F>(b);
     let (o2, used2) = front::async_whole::<F>(b);
@@ -252,6 +277,11 @@ pub fn c03_light<F: Fam>(ctx: &Ctx, sw: &Sweep, b: &[u8]) {
                 Ok(Err(w)) => c03_report::<F>(ctx, b, entry, format!("returned a packet violating a type invariant: {w}")),
                 Err(m) => c03_report::<F>(ctx, b, entry, format!("an accessor of the returned packet panics: {m} @ {}", last_panic_loc())),
             },
+            Out::Err(e) => {
+                if let Err(w) = err_walk::<F>(e) {
+                    c03_report::<F>(ctx, b, entry, w);
+                }
+            }
             _ => {}
         }
     }
@@ -436,11 +466,15 @@ fn c03_sub_universe<F: Fam>(ctx: &Ctx) {
 }
 
 pub fn c03(ctx: &Ctx) {
-    ctx.set_rule("all byte strings <= 3 (thorough 4) bytes; all complete frames with remaining length <= 2 (3) and all bodies over the 16-byte alphabet B16 up to 5 (6) bytes for the legal control bytes; maximal headers; the complete single-edit neighbourhood N1 (substitution, deletion, insertion, every 16-bit window rewritten as a length, remaining length rewritten to 0..rem+2 and the width boundaries; raw and re-framed) of every U_small frame; splices; legal non-canonical spellings; the malformation catalogue. Entry points: Packet::decode, Header::decode, decode_async, Header::decode_async, PollPacket (always-ready; 1- and 2-byte reads with the future kept / re-created; end of stream mid-way); additionally every public per-body and per-property-set decoder (Connect::decode_async … AuthProperties::decode_async, decode_with_protocol with all three protocols, LastWill, Protocol, decode_raw_header) called directly on all strings <= 2 bytes, B16^3 and the bodies of all small frames with every byte substituted over B16 and every truncation, for six remaining-length arguments. Monitors: panic (incl. overflow checks and debug_assert in the checked profile), pending-without-cause, call budget, init coverage of the returned body buffer by address ranges, type-invariant walker. Non-trivial = inputs that get past header validation");
+    ctx.set_rule("all byte strings <= 3 (thorough 4) bytes; all complete frames with remaining length <= 2 (3) and all bodies over the 16-byte alphabet B16 up to 5 (6) bytes for the legal control bytes; maximal headers; the complete single-edit neighbourhood N1 (substitution, deletion, insertion, every 16-bit window rewritten as a length, remaining length rewritten to 0..rem+2 and the width boundaries; raw and re-framed) of every U_small frame; splices; legal non-canonical spellings; the malformation catalogue; the targeted text universe (every text-bearing field of every packet type, and every pair of them, filled with - thorough tier: all byte strings <= 3 over a 16-byte alphabet, defective strings of 4..129 bytes; both tiers: - strings of 250..1027 bytes made of 1-, 2-, 3- and 4-byte characters at every alignment, clean and with a wildcard / NUL / invalid byte in front or at the end). Entry points: Packet::decode, Header::decode, decode_async, Header::decode_async, PollPacket (always-ready; 1- and 2-byte reads with the future kept / re-created; end of stream mid-way); additionally every public per-body and per-property-set decoder (Connect::decode_async … AuthProperties::decode_async, decode_with_protocol with all three protocols, LastWill, Protocol, decode_raw_header) called directly on all strings <= 2 bytes, B16^3 and the bodies of all small frames with every byte substituted over B16 and every truncation, for six remaining-length arguments. Monitors: panic (incl. overflow checks and debug_assert in the checked profile), pending-without-cause, call budget, init coverage of the returned body buffer by address ranges, type-invariant walker on returned packets, and on returned ERROR values: every text they carry is well-formed UTF-8 and they format without panicking. Non-trivial = inputs that get past header validation");
     fn fam<F: Fam>(ctx: &Ctx) {
         let sw = Sweep { ctx, nontrivial: AtomicU64::new(0), accepted: AtomicU64::new(0) };
         all_byte_universes2::<F>(ctx, &|b| c03_light::<F>(ctx, &sw, b), &|b| c03_heavy::<F>(ctx, b), &|b| c03_heavy_opt::<F>(ctx, b, ctx.thorough()), true);
         c03_sub_universe::<F>(ctx);
+        // the targeted text universe (shared with C12): every text-bearing field of every packet type filled with
+        // arbitrary short byte strings, defective long strings and long multi-byte strings at every alignment
+        let tf = targeted_text_frames::<F>(ctx, !ctx.thorough());
+        tf.par_iter().for_each(|b| c03_light::<F>(ctx, &sw, b));
         crate::checks::history::decode_history::<F>(ctx, "C03");
         ctx.nontriv(sw.nontrivial.load(Relaxed));
         ctx.count(&format!("{}_accepted", F::NAME), sw.accepted.load(Relaxed));
@@ -687,7 +721,9 @@ pub fn c12_input<F: Fam>(ctx: &Ctx, sw: &Sweep, b: &[u8]) {
 }
 
 /// text placed into every text-bearing field of every packet type
-fn c12_targeted<F: Fam>(ctx: &Ctx, sw: &Sweep) -> u64 {
+/// The targeted text universe shared by C12 and C03: frames in which one text-bearing field (or a
+/// pair of them) of a valid packet is replaced by arbitrary bytes.
+pub fn targeted_text_frames<F: Fam>(ctx: &Ctx, long_only: bool) -> Vec<Vec<u8>> {
     use mqtt_ref::enc::{Node, Tag};
     let alpha: [u8; 16] = [0x00, b'a', b'+', b'#', b'/', b'$', 0xC3, 0xA9, 0xE2, 0x82, 0xAC, 0xED, 0xA0, 0x80, 0xF0, 0xFF];
     // all strings of length <= 3 over the alphabet
@@ -730,6 +766,27 @@ fn c12_targeted<F: Fam>(ctx: &Ctx, sw: &Sweep) -> u64 {
             t.push(b'a');
         }
         texts.push(t);
+    }
+    // long texts of 1-, 2-, 3- and 4-byte characters at every alignment around 256 / 512 / 1024 bytes, clean and
+    // with a defect in front or at the end: error paths that cut, copy or quote the offending text
+    for total in [250usize, 255, 256, 257, 258, 259, 260, 261, 511, 512, 513, 514, 515, 1023, 1024, 1025, 1026, 1027] {
+        for ch in ["a", "é", "好", "😀"] {
+            for align in 0..ch.len() {
+                for (pre, suf) in [(&b""[..], &b""[..]), (&b"+"[..], &b""[..]), (&b"a/"[..], &b"/#x"[..]), (&b""[..], &b"#"[..]), (&b""[..], &b"\0"[..]), (&b""[..], &[0xFFu8][..]), (&b"$share/g/"[..], &b"/+/#/"[..]), (&b"$share/"[..], &b""[..])] {
+                    let mut t: Vec<u8> = pre.to_vec();
+                    t.extend(std::iter::repeat(b'a').take(align));
+                    while t.len() + ch.len() + suf.len() <= total {
+                        t.extend_from_slice(ch.as_bytes());
+                    }
+                    t.extend_from_slice(suf);
+                    texts.push(t);
+                }
+            }
+        }
+    }
+    if long_only {
+        // quick C03: the short and medium texts are inside the byte universes already (bodies over B16, N1)
+        texts.retain(|t| t.len() >= 200);
     }
     // share-prefixed texts for the filter fields
     for t in ["$share/g/a", "$share/é/a", "$share/😀/+", "$share/g/\0", "$share/g", "$share//a", "$share/g/+/#"] {
@@ -871,10 +928,16 @@ fn c12_targeted<F: Fam>(ctx: &Ctx, sw: &Sweep) -> u64 {
             }
         }
     }
-    ctx.count(&format!("{}_targeted_text_field_pairs", F::NAME), pair_sites);
-    ctx.count(&format!("{}_targeted_text_fields", F::NAME), fields);
-    ctx.count(&format!("{}_targeted_texts", F::NAME), texts.len() as u64);
-    ctx.count(&format!("{}_targeted_frames", F::NAME), frames.len() as u64);
+    ctx.count_set(&format!("{}_targeted_text_field_pairs", F::NAME), pair_sites);
+    let tag = if long_only { "targeted_long" } else { "targeted" };
+    ctx.count_set(&format!("{}_{tag}_text_fields", F::NAME), fields);
+    ctx.count_set(&format!("{}_{tag}_texts", F::NAME), texts.len() as u64);
+    ctx.count_set(&format!("{}_{tag}_frames", F::NAME), frames.len() as u64);
+    frames
+}
+
+fn c12_targeted<F: Fam>(ctx: &Ctx, sw: &Sweep) -> u64 {
+    let frames = targeted_text_frames::<F>(ctx, false);
     frames.par_iter().for_each(|b| {
         c12_input::<F>(ctx, sw, b);
         // accepted => the reference decoder accepts too (strings really are UTF-8, topics really are topics)
@@ -893,7 +956,7 @@ fn c12_targeted<F: Fam>(ctx: &Ctx, sw: &Sweep) -> u64 {
 }
 
 pub fn c12(ctx: &Ctx) {
-    ctx.set_rule("the invariant walker (every text field valid UTF-8 byte-wise, TopicName/TopicFilter pass the library's own predicates and the reference predicates, shared accessors equal the textual split and do not panic, Pid != 0, VarByteInt < 2^28, UTF-8-flagged payloads valid) on every packet any front-end returns over the byte universes of C03, plus a targeted universe: for each text-bearing field of each packet type, all byte strings <= 2 (thorough 3) over a 16-byte alphabet of ASCII / wildcard / UTF-8 lead, continuation, surrogate and invalid bytes, and longer strings (4..129 bytes) with one bad unit at every position; for every pair of text fields of a full packet of every type, a multi-byte character split between the two fields at every byte position (each field ill-formed, the concatenation well-formed); packet identifiers 0/1/FFFF; subscription identifiers around 2^28 in 4- and 5-byte spellings; UTF-8-flagged payloads. Non-trivial = accepted inputs");
+    ctx.set_rule("the invariant walker (every text field valid UTF-8 byte-wise, TopicName/TopicFilter pass the library's own predicates and the reference predicates, shared accessors equal the textual split and do not panic, Pid != 0, VarByteInt < 2^28, UTF-8-flagged payloads valid) on every packet any front-end returns over the byte universes of C03, plus a targeted universe: for each text-bearing field of each packet type, all byte strings <= 2 (thorough 3) over a 16-byte alphabet of ASCII / wildcard / UTF-8 lead, continuation, surrogate and invalid bytes, and longer strings (4..129 bytes) with one bad unit at every position; strings of 250..1027 bytes of 1- to 4-byte characters at every alignment, clean and defective; for every pair of text fields of a full packet of every type, a multi-byte character split between the two fields at every byte position (each field ill-formed, the concatenation well-formed); packet identifiers 0/1/FFFF; subscription identifiers around 2^28 in 4- and 5-byte spellings; UTF-8-flagged payloads. Non-trivial = accepted inputs");
     fn fam<F: Fam>(ctx: &Ctx) {
         let sw = Sweep { ctx, nontrivial: AtomicU64::new(0), accepted: AtomicU64::new(0) };
         let n = c12_targeted::<F>(ctx, &sw);
